@@ -251,6 +251,27 @@ func (r *rpcRun) exec(a *actor, st Step) (stop bool) {
 	return stop
 }
 
+func (r *rpcRun) wasCancelled() bool {
+	r.mu.Lock()
+	defer r.mu.Unlock()
+	return r.cancelled
+}
+
+// clientSawFinal: some client receive has returned an error (the stream's final outcome) and the handler is done.
+func (r *rpcRun) clientSawFinal() bool {
+	r.mu.Lock()
+	defer r.mu.Unlock()
+	if !r.handlerReturned {
+		return false
+	}
+	for _, e := range r.events {
+		if e.Done && (e.Step.Actor == "cr") && e.Step.Op == "recv" && e.ErrKind != "nil" {
+			return true
+		}
+	}
+	return false
+}
+
 func (r *rpcRun) newTagLocked() int32 {
 	r.mu.Lock()
 	defer r.mu.Unlock()
